@@ -51,6 +51,9 @@ CLAIMED.update({
  "C02": C("stateful (model-based) property-based testing under two build profiles: generated operation histories incl. failing calls, slot model with free index choice, full observation after every step",
           "Operation histories over StableGraph (both edge types, four index widths, u8 filled to its limit), run with debug assertions on and off; every query/iterator/walker/bound is compared with a slot model after every operation, failing calls must change nothing, any panic on a valid call is a violation.",
           "the slot model and observation comparison in harness/src/gmodel.rs and props/c02.rs", "DESIGN.md section 5, C02"),
+ "C03": C("stateful (model-based) property-based testing: generated operation histories over a small key pool, BTreeSet/BTreeMap reference model, full observation after every step",
+          "Operation histories over GraphMap for two key types, both edge types and four hashers (incl. an all-colliding one); every query for every pool key/pair, the iterators and the compact index numbering are compared with the model after every operation.",
+          "the 30-line reference model in props/c03.rs", "DESIGN.md section 5, C03"),
 })
 PLANNED = {}
 
